@@ -351,6 +351,34 @@ func init() {
 			tokAssume(ck)
 			ck.RequiredProbes = []string{"transfer_unwound"}
 		})
+	coreCheck("C41",
+		"token worlds where governance (real gov module: proposal, vote, voting period) adds, updates, resets and removes rate limits with quotas of 0-2 % on (denomination, channel) paths, preferring vouchers whose small supply makes quotas bind; transfers flow both ways with success and error acknowledgements, timeouts, duplicates and replays; the clock jumps across hour boundaries (begin-block window resets are isolated in empty blocks and accepted only when they are full resets). After every block the stored inflow / outflow / channel value of every rate limit must equal the reference model (amounts accepted in the current window minus those undone in it, each packet undone at most once, error-ack receives leave flows unchanged), and accept/refuse must agree with the quota. Non-trivial case = distinct administration outcomes, quota refusals by direction, observed window resets",
+		[]string{"rladm:", "rl-send-refused:", "rl-recv-refused:", "rl-reset:"}, 96, 1200,
+		func(o *CoreOptions, r *rand.Rand, tier string) {
+			tokenOptions(o, r)
+			o.RateLimit, o.TightQuota = true, true
+			o.WRateAdm = 8
+			o.GovSecs = 40
+			o.MaxPkts = 30
+		},
+		func(ck *sim.Check) {
+			tokAssume(ck)
+			ck.RequiredProbes = []string{"rate_limit_state_compared", "rate_limited_send_charged", "rate_limited_receive_charged", "rate_limited_send_undone", "send_refused_for_quota"}
+			ck.Assumptions = append(ck.Assumptions, "when the hourly epoch logic fires is observed, not predicted: the property fixes the accounting between resets")
+		})
+	coreCheck("C42",
+		"token worlds where every denomination in play (natives, '/'-named natives, vouchers of every hop count, unwinding paths) gets a generous (100 %) rate limit on the channels it moves over, so that every movement is charged; per committed transfer the (denomination, channel) whose recorded flow moved must be the (denomination, channel) of the bank movement the ICS-20 model predicts (escrow/burn on send, mint/unescrow on receive), by the same amount, v1 / alias / v2. Non-trivial case = distinct (route kind, denomination shape) charged sends and receives",
+		[]string{"rladm:", "xfer:", "mint:", "return:"}, 96, 1200,
+		func(o *CoreOptions, r *rand.Rand, tier string) {
+			tokenOptions(o, r)
+			o.RateLimit = true
+			o.WRateAdm = 10
+			o.GovSecs = 40
+		},
+		func(ck *sim.Check) {
+			tokAssume(ck)
+			ck.RequiredProbes = []string{"rate_limit_state_compared", "rate_limited_send_charged", "rate_limited_receive_charged"}
+		})
 	coreCheck("C49",
 		"token worlds with attackers: v2 MsgSendPacket whose transfer payload names another account as sender, MsgTransfer signed by one account naming another, relays submitted by arbitrary accounts. Per block: every non-module account whose balance decreased signed (or authorised) a transaction of that block; credits from receive/ack/timeout go only to the packet's receiver or refund its original sender (bank diff vs model), whoever relays. Non-trivial case = distinct attack shapes and refund/credit shapes",
 		[]string{"attack:", "refund:", "mint:", "return:"}, 96, 1400,
